@@ -1007,6 +1007,33 @@ func runCase(t *testing.T, run *vh.Run, c *Case, withDispatcher bool) {
 		if lsKey(lm) != lsKey(w.labels) {
 			bad("labels")
 		}
+		self := specAt(c.Root, n.path)
+		sp := self[len(self)-1]
+		switch {
+		case sp.GroupBy == nil:
+			run.Count("option_branch", "group_by inherited")
+		case len(*sp.GroupBy) == 0:
+			run.Count("option_branch", "group_by: [] override")
+		case (*sp.GroupBy)[0] == "...":
+			run.Count("option_branch", "group_by: ['...']")
+		default:
+			run.Count("option_branch", "group_by explicit list")
+		}
+		if sp.Receiver == "" {
+			run.Count("option_branch", "receiver inherited")
+		}
+		if sp.GW != nil || sp.GI != nil || sp.RI != nil {
+			run.Count("option_branch", "timer overridden")
+		}
+		if len(sp.Labels) > 0 {
+			run.Count("option_branch", "route labels merged")
+		}
+		if len(sp.Match)+len(sp.MatchRE) > 0 {
+			run.Count("option_branch", "legacy match/match_re")
+		}
+		if len(sp.Mute)+len(sp.Active) > 0 {
+			run.Count("option_branch", "mute/active intervals")
+		}
 		if len(n.path) > 0 {
 			run.Count("node_kind", fmt.Sprintf("matchers=%d continue=%t leaf=%t", len(n.r.Matchers), n.r.Continue, len(n.r.Routes) == 0))
 		}
@@ -1173,7 +1200,7 @@ func TestCheck(t *testing.T) {
 			run.Count("exhaustive", c.Note)
 		})
 	}
-	if err := run.Finish("random routing trees (depth <= 4, fan-out <= 4) as configuration text through config.Load + dispatch.NewRoute; per tree 14 label sets over 3 labels x {x,y,xy,empty,absent}; non-trivial = some label set is routed below the root; distinct by full case text"); err != nil {
+	if err := run.Finish("corpus + 5 hand-written trees + random routing trees (depth <= 4, fan-out <= 4, ~11% invalid) as configuration text through config.Load + dispatch.NewRoute; per tree 14 label sets over 3 labels x {x,y,xy,empty,absent}; consumers (API, amtool, amtool --tree, Dispatcher groups and notifications) compared per label set; thorough tier adds all trees <= 5 nodes over 2 labels x 2 values with all continue flags x 9 label sets; non-trivial = some label set is routed below the root; distinct by full case text"); err != nil {
 		t.Fatal(err)
 	}
 }
